@@ -36,24 +36,61 @@ impl<'a> Hist<'a> {
         s
     }
 
-    /// Lower bound of the freshest penalty on a route (fastest documented decay: 30 s half-life), counting only
-    /// reports that were certainly applied to it (the route was cached when the report arrived).
+    /// Lower bound of the freshest penalty on a route (fastest documented decay: 30 s half-life).  A report counts
+    /// if the SDK certainly applied it to the route: the route was cached when the report arrived, or the issue was
+    /// still in the issue memory (fewer distinct reports since than its configured size) when the route was fetched.
+    /// A report that arrived while a lookup of the pair was outstanding is stamped by the worker with that lookup's
+    /// start time (the clock reading it took before the fetch): the bound decays from there.
     pub fn fresh_penalty(&self, route: usize, now_ns: u64) -> (f64, Option<Report>) {
         let mut best = (0.0, None);
-        let since = match self.in_cache_since.get(&route) {
-            Some(s) => *s,
-            None => return best,
-        };
-        for p in &self.penalties {
-            if p.t_ns >= since && p.report.concerns(&self.routes[route].hops) {
-                let dt = (now_ns.saturating_sub(p.t_ns)) as f64 / 1e9;
-                let v = p.report.penalty() * 2f64.powf(-dt / 30.0);
-                if v > best.0 {
-                    best = (v, Some(p.report.clone()));
-                }
+        let since = self.in_cache_since.get(&route).copied();
+        let pair = self.pair(self.routes[route].dst);
+        for (k, p) in self.penalties.iter().enumerate() {
+            if !p.report.concerns(&self.routes[route].hops) {
+                continue;
+            }
+            let cached_then = since.map(|s| p.step >= s.1).unwrap_or(false);
+            let mut later: Vec<String> = self.penalties[k + 1..].iter().map(|q| format!("{:?}", q.report)).collect();
+            later.sort();
+            later.dedup();
+            let still_remembered = later.len() + 1 < self.cfg.issue_cache_size;
+            if !(cached_then || (since.is_some() && still_remembered)) {
+                continue;
+            }
+            let t0 = self.lookup_start_covering(pair, p.t_ns).unwrap_or(p.t_ns).min(p.t_ns);
+            let dt = (now_ns.saturating_sub(t0)) as f64 / 1e9;
+            let v = p.report.penalty() * 2f64.powf(-dt / 30.0);
+            if v > best.0 {
+                best = (v, Some(p.report.clone()));
             }
         }
         best
+    }
+
+    /// Start time of the lookup of `pair` that was outstanding when something happened at `t_ns`, if any.
+    pub fn lookup_start_covering(&self, pair: Pair, t_ns: u64) -> Option<u64> {
+        let st = self.fetch.lock().unwrap();
+        st.reqs.iter().filter(|r| r.pair == pair && r.start_ns <= t_ns && ((r.outcome.is_none() && !r.dropped) || r.done_ns.map(|d| d >= t_ns).unwrap_or(false))).map(|r| r.start_ns).min()
+    }
+
+    /// Is a lookup of `pair` that started at or before `t_ns` still outstanding?  Then the worker has not been able
+    /// to act on anything reported since.
+    pub fn lookup_still_outstanding_since(&self, pair: Pair, t_ns: u64) -> bool {
+        let st = self.fetch.lock().unwrap();
+        // the lookup outstanding at t_ns, then every lookup started at the very instant its predecessor finished
+        // (the worker's biased select runs a due maintenance tick before it polls the issue channel): the worker
+        // has been busy without a break iff this chain ends in a lookup that is still outstanding
+        let live = self.workers.iter().rev().find(|w| w.pair == Some(pair) && !self.sim.is_finished(w.actor)).map(|w| w.actor);
+        let mut cur = st.reqs.iter().filter(|r| r.pair == pair && r.actor == live && r.start_ns <= t_ns && ((r.outcome.is_none() && !r.dropped) || r.done_ns.map(|d| d >= t_ns).unwrap_or(false))).min_by_key(|r| r.id);
+        for _ in 0..64 {
+            let Some(r) = cur else { return false };
+            if r.dropped {
+                return false;
+            }
+            let Some(done) = r.done_ns else { return r.outcome.is_none() || true };
+            cur = st.reqs.iter().find(|n| n.pair == pair && n.id > r.id && n.actor == r.actor && n.start_ns == done);
+        }
+        false
     }
 
     pub fn clean_valid_alternatives(&self, pair: Pair, not_concerned_by: Option<&Report>, exclude: Option<usize>) -> Vec<usize> {
@@ -181,8 +218,8 @@ impl<'a> Hist<'a> {
                         if rep.penalty() <= self.cfg.path_swap_score_threshold as f64 + 0.02 {
                             tags.push_str(" [penalty below swap threshold]");
                         }
-                        if self.lookup_outstanding_since_before(*pair, now_ns) {
-                            tags.push_str(" [report arrived during an outstanding lookup]");
+                        if self.lookup_still_outstanding_since(*pair, now_ns) {
+                            tags.push_str(" [lookup outstanding since before the report: the worker cannot act yet]");
                         }
                         self.violate_pub(
                             "C07/no-switch",
@@ -199,7 +236,7 @@ impl<'a> Hist<'a> {
 
     /// Update, at a quiescent point, since when each route has been continuously cached by a live worker.
     pub fn track_cache_membership(&mut self) {
-        let now = self.sim.now_ns();
+        let now = (self.sim.now_ns(), self.sim.with(|s| s.steps));
         let mut present: Vec<usize> = Vec::new();
         for d in 0..self.n_dst {
             if let Some((_, cached)) = self.view(self.pair(d)) {
@@ -224,7 +261,7 @@ impl<'a> Hist<'a> {
             self.sim.probe("oracle-fresh");
             if !alts.is_empty() {
                 let rep_t = self.penalties.iter().rev().find(|p| Some(&p.report) == rep.as_ref()).map(|p| p.t_ns).unwrap_or(u64::MAX);
-                let tags = if self.lookup_outstanding_since_before(pair, rep_t) { " [report arrived during an outstanding lookup]" } else { "" };
+                let tags = if self.lookup_still_outstanding_since(pair, rep_t) { " [lookup outstanding since before the report: the worker cannot act yet]" } else { "" };
                 return self.violate_pub(
                     "C07/fresh-penalised-path-used",
                     format!("r{route} handed out while it carries a fresh penalty (≥{fresh:.2}, from {rep:?}) and unpenalised valid alternatives {alts:?} are cached{tags}"),
